@@ -31,6 +31,16 @@ BSubB(a, b, br) ==
           ELSE <<t>> \o BSubB(Tail(a), IF b = <<>> THEN <<>> ELSE Tail(b), 0)
 BSub(a, b) == BNorm(BSubB(a, b, 0))
 
+RECURSIVE BAddC(_, _, _)
+(* a + b + carry *)
+BAddC(a, b, c) ==
+  IF a = <<>> /\ b = <<>> THEN (IF c = 0 THEN <<>> ELSE <<c>>)
+  ELSE LET x == IF a = <<>> THEN 0 ELSE a[1]
+           y == IF b = <<>> THEN 0 ELSE b[1]
+           t == x + y + c
+       IN <<t % Base>> \o BAddC(IF a = <<>> THEN <<>> ELSE Tail(a), IF b = <<>> THEN <<>> ELSE Tail(b), t \div Base)
+BAdd(a, b) == BNorm(BAddC(a, b, 0))
+
 RECURSIVE BLtRev(_, _)
 BLtRev(a, b) ==       \* same length, compare from the most significant limb
   IF a = <<>> THEN FALSE
